@@ -24,6 +24,8 @@ pub fn run(out: &mut Out, tier: &str, rng: &mut Rng) {
             out.count(&format!("close {}", close.tok()));
         }
     }
+    // the armed client stalled inside a frame while signals overran its session, then died
+    crate::c05::stalled(out, &inst);
     // a valid armed upgrade followed by an invalid one (and vice versa)
     for (a, b) in [(0x10u8, 0xF0u8), (0xF0, 0x10), (0x10, 0x00), (0x00, 0x10), (0x11, 0x31)] {
         let mut s = session_frame(a, "a").bytes;
